@@ -5,6 +5,7 @@ CONSTANTS
   ArgVals <- ThoroughArgs
   StepVals = {1, 2, 3}
   Fuel = 12
+  OneQ = FALSE
   MaxAbs = 10
 INVARIANTS TileCovers
 CONSTRAINT TEmit
